@@ -6,6 +6,7 @@ import hashlib
 import importlib
 import linecache
 import os
+import pathlib
 import shlex
 import subprocess
 import sys
@@ -23,7 +24,7 @@ RULE = (
     "case = one variant pair (A,B) differing in exactly one semantically relevant aspect, drawn from a finite pool "
     "(python: function body edited on disk and reloaded, captured closure value; shell with /bin/echo|printf: "
     "executable, argstr, position, sep, formatter; inputs: content, int/float/bool/str type, list vs tuple, nesting, bytes vs "
-    "str, numpy shape, dtype, content, memory layout, strides) x a Chooser-generated history of 2-8 submissions of A, B and unrelated tasks into "
+    "str, path vs str, values of user classes (enum members, private/public attributes, slots, dataclass, attrs, same state in two classes), numpy shape, dtype, content, memory layout, strides, byte order) x a Chooser-generated history of 2-8 submissions of A, B and unrelated tasks into "
     "one cache root (both orders, repeats, reruns, debug worker or simulated pool).  Oracle per submission: outputs == "
     "executing now (function called / argv run directly); per pair: cache identities differ.  Non-trivial = both members "
     "were submitted and the second came after the first was cached; distinct = distinct (pair, history)."
@@ -41,6 +42,7 @@ PAIRS = [
     "py-body", "py-closure",
     "sh-executable", "sh-argstr", "sh-position", "sh-sep", "sh-formatter",
     "in-content", "in-int-float", "in-int-bool", "in-int-str", "in-list-tuple", "in-nesting", "in-bytes-str", "in-none-zero",
+    "in-path-str", "obj-enum", "obj-private", "obj-public", "obj-class", "obj-slots", "obj-dataclass", "obj-attrs",
     "np-shape", "np-dtype", "np-content", "np-int-vs-list", "np-layout", "np-strided", "np-byteorder",
 ]
 
@@ -166,6 +168,16 @@ def make_pair(name, workdir):
         "in-nesting": ([[1, 2], [3]], [[1], [2, 3]]),
         "in-bytes-str": ("a", b"a"),
         "in-none-zero": (None, 0),
+        "in-path-str": (pathlib.PurePosixPath("a/b"), "a/b"),
+        # values of user classes: state in enum members, in underscore-prefixed or public
+        # attributes, in slots, dataclass / attrs fields; same state in two classes
+        "obj-enum": (workload.Interp.NEAREST, workload.Interp.CUBIC),
+        "obj-private": (workload.Thresh(0.1), workload.Thresh(0.9)),
+        "obj-public": (workload.Pub(1), workload.Pub(2)),
+        "obj-class": (workload.Pub(1), workload.Pub2(1)),
+        "obj-slots": (workload.Slotted(1, 2), workload.Slotted(1, 3)),
+        "obj-dataclass": (workload.DC(1, "a"), workload.DC(1, "b")),
+        "obj-attrs": (workload.AT(1, 2), workload.AT(1, 3)),
         "np-shape": (np.arange(6).reshape(2, 3), np.arange(6).reshape(3, 2)),
         "np-dtype": (np.zeros(4, dtype="int32"), np.zeros(4, dtype="float32")),
         "np-content": (np.array([1, 2, 3]), np.array([1, 2, 4])),
